@@ -329,3 +329,55 @@ func init() {
 		})
 	})
 }
+
+// reflect.DeepEqual for the operand kinds fabio uses ([]string, strings, nil)
+func init() {
+	reg("reflect.DeepEqual", func(e *Engine, st *State, c *callCtx) bool {
+		a, ok1 := c.args[0].(IfaceVal)
+		b, ok2 := c.args[1].(IfaceVal)
+		if !ok1 || !ok2 {
+			unsup("reflect.DeepEqual on %s", describe(c.args[0]))
+		}
+		if a.T == nil || b.T == nil {
+			c.ret(st, KBool(a.T == nil && b.T == nil))
+			return true
+		}
+		if !types.Identical(a.T, b.T) {
+			c.ret(st, tFalse)
+			return true
+		}
+		sa, isA := a.V.(SliceVal)
+		sb, isB := b.V.(SliceVal)
+		if !isA || !isB {
+			c.ret(st, e.equal(st, a.V, b.V, a.T))
+			return true
+		}
+		if (sa.Obj == 0) != (sb.Obj == 0) {
+			c.ret(st, tFalse)
+			return true
+		}
+		if sa.Obj == 0 {
+			c.ret(st, tTrue)
+			return true
+		}
+		et := a.T.Underlying().(*types.Slice).Elem()
+		return e.concretize(st, sa.Len, "DeepEqual len", func(s1 *State, n1 int) {
+			e.concretize(s1, sb.Len, "DeepEqual len", func(s2 *State, n2 int) {
+				if n1 != n2 {
+					c.ret(s2, tFalse)
+					return
+				}
+				if !sa.Off.K || !sb.Off.K {
+					unsup("DeepEqual on slices with symbolic offset")
+				}
+				cs := []*Term{}
+				for i := 0; i < n1; i++ {
+					x := e.getElem(s2, e.backing(s2, sa.Obj), PathElem{Idx: KInt64(sa.Off.I.Int64() + int64(i))})
+					y := e.getElem(s2, e.backing(s2, sb.Obj), PathElem{Idx: KInt64(sb.Off.I.Int64() + int64(i))})
+					cs = append(cs, e.equal(s2, x, y, et))
+				}
+				c.ret(s2, And(cs...))
+			})
+		})
+	})
+}
